@@ -292,7 +292,11 @@ func (r *runner) registrationHistory(cases []tcase) {
 			cs := pool[r.r.Intn(len(pool))]
 			out := pool[r.r.Intn(len(pool))]
 			st := styles[r.r.Intn(len(styles))]
-			tool, err := mcp.VerifToolFor(name, cs.t, out.t, st)
+			outT := out.t
+			if r.r.Intn(3) == 0 {
+				outT = nil // no output schema: a re-registration with fewer parts than the one before
+			}
+			tool, err := mcp.VerifToolFor(name, cs.t, outT, st)
 			if err != nil {
 				panic(err)
 			}
@@ -301,7 +305,10 @@ func (r *runner) registrationHistory(cases []tcase) {
 				return mcp.NewTextResult(marker), nil
 			})
 			sb, _ := json.Marshal(tool.InputSchema)
-			ob, _ := json.Marshal(tool.OutputSchema)
+			var ob []byte
+			if tool.OutputSchema != nil {
+				ob, _ = json.Marshal(tool.OutputSchema)
+			}
 			current[name] = regd{schema: sb, out: ob, marker: marker, desc: cs.t.String() + " / " + st}
 			hist = append(hist, fmt.Sprintf("register %s input=%s style=%s", name, cs.t.String(), st))
 		}
@@ -337,7 +344,11 @@ func (r *runner) registrationHistory(cases []tcase) {
 		}
 		for n, want := range current {
 			t := listed[n][0]
-			if !jsonEq(t.RawInputSchema, want.schema) || !jsonEq(t.RawOutputSchema, want.out) {
+			outOK := jsonEq(t.RawOutputSchema, want.out)
+			if want.out == nil {
+				outOK = len(t.RawOutputSchema) == 0 && t.OutputSchema == nil // registered without one: none may be listed
+			}
+			if !jsonEq(t.RawInputSchema, want.schema) || !outOK {
 				c.Violate(hk.Violation{Fingerprint: "schema:passthrough:registration-history:listed-schema-not-last-registered",
 					What:  "tools/list serves a schema for tool " + n + " that is not the one registered last under that name (" + want.desc + ")",
 					Input: map[string]any{"history_tail": tail, "tool": n}, Observed: trunc(t.RawInputSchema, 1500), Expected: trunc(want.schema, 1500)})
